@@ -90,7 +90,7 @@ func genSniff(r *hk.Rand) []byte {
 }
 
 func genParserCases(r *hk.Rand, quick bool, add func(*Case)) {
-	n := 500
+	n := 300
 	if !quick {
 		n = 20000
 	}
